@@ -123,6 +123,10 @@ theorem stepRemote_inv (s : Sess) (h : SessInv s) : SessInv s.stepRemote := by
       exact ⟨a, b⟩
   · exact h
 
+theorem syncRecv_inv (s : Sess) (x : Nat) (h : SessInv s) : SessInv (s.syncRecv x) := by
+  obtain ⟨a, b⟩ := insert_keeps s.dedup s.log Src.remote x h.ring h.distinct
+  exact ⟨a, b⟩
+
 private theorem updSess_inv (sid : Nat) (f : Sess → Sess) (l : List Sess)
     (hf : ∀ s, SessInv s → SessInv (f s)) (h : ∀ s ∈ l, SessInv s) :
     ∀ s ∈ updSess sid f l, SessInv s := by
@@ -147,6 +151,8 @@ theorem step_inv (st : St) (a : Act) (h : GInv st) : GInv (st.step a) := by
     · exact hs
   | liveStep sid => exact ⟨updSess_inv sid _ st.sess stepLive_inv h.sess, ⟨h.cons.ring, h.cons.distinct⟩⟩
   | remoteStep sid => exact ⟨updSess_inv sid _ st.sess stepRemote_inv h.sess, ⟨h.cons.ring, h.cons.distinct⟩⟩
+  | syncRecv sid op =>
+    exact ⟨updSess_inv sid _ st.sess (fun s hs => syncRecv_inv s op hs) h.sess, ⟨h.cons.ring, h.cons.distinct⟩⟩
   | consume sid =>
     simp only [St.step, St.consume]
     split
@@ -155,6 +161,9 @@ theorem step_inv (st : St) (a : Act) (h : GInv st) : GInv (st.step a) := by
       split
       · exact h
       · rename_i x q hq
+        split
+        · exact ⟨updSess_inv sid (fun s => { s with evQ := q }) st.sess (fun s hs => ⟨hs.ring, hs.distinct⟩) h.sess,
+            ⟨h.cons.ring, h.cons.distinct⟩⟩
         obtain ⟨a, b⟩ := insert_keeps st.cdedup st.reports sid x h.cons.ring h.cons.distinct
         refine ⟨?_, ⟨a, b⟩⟩
         intro s' hs'
@@ -204,6 +213,9 @@ private theorem conf_stepRemote (s : Sess) : conf s.stepRemote = conf s := by
     · simp [cap_insert]
   · rfl
 
+private theorem conf_syncRecv (s : Sess) (x : Nat) : conf (s.syncRecv x) = conf s := by
+  simp [Sess.syncRecv, conf, cap_insert]
+
 private theorem map_conf_updSess (sid : Nat) (f : Sess → Sess) (l : List Sess)
     (hf : ∀ s, conf (f s) = conf s) : (updSess sid f l).map conf = l.map conf := by
   simp only [updSess, List.map_map]
@@ -222,13 +234,16 @@ theorem step_conf (st : St) (a : Act) : (st.step a).sess.map conf = st.sess.map 
     exact map_conf_updSess sid _ _ (by intro s; split <;> rfl)
   | liveStep sid => exact map_conf_updSess sid _ _ conf_stepLive
   | remoteStep sid => exact map_conf_updSess sid _ _ conf_stepRemote
+  | syncRecv sid op => exact map_conf_updSess sid _ _ (fun s => conf_syncRecv s op)
   | consume sid =>
     simp only [St.step, St.consume]
     split
     · rfl
     · split
       · rfl
-      · simp only [List.map_map]
+      · split
+        · exact map_conf_updSess sid _ _ (by intro s; rfl)
+        simp only [List.map_map]
         rw [← map_conf_updSess sid (fun s => { s with evQ := _ }) st.sess (by intro s; rfl)]
         simp only [updSess, List.map_map]
         apply List.map_congr_left
@@ -289,14 +304,15 @@ theorem c23_consumer_once (st : St) (h : GInv st) (acts : List Act)
   simpa using this
 
 /-- **Forward to all others** (the `consume` transition): when the manager event stream takes
-    an `OperationReceived(x)` of session `sid`, every *other* live session of the same topic gets
+    an `OperationReceived(x)` of session `sid` (still registered in its topic map), every *other* live session of the same topic gets
     `x` appended to its `live_mode_rx` — nothing else about that session changes. -/
 theorem c23_forward_all (st : St) (sid : Nat) (s : Sess) (x : Nat) (q : List Nat)
     (hfind : st.sess.find? (fun s => s.sid = sid) = some s) (hq : s.evQ = x :: q)
+    (hnd : st.dropped.contains sid = false)
     (s' : Sess) (hs' : s' ∈ st.sess) (hne : s'.sid ≠ sid) (htop : s'.topic = s.topic)
     (hlive : s'.live = true) :
     { s' with liveQ := s'.liveQ ++ [x] } ∈ (st.consume sid).sess := by
-  simp only [St.consume, hfind, hq, List.mem_map, updSess]
+  simp only [St.consume, hfind, hq, hnd, Bool.false_eq_true, if_false, List.mem_map, updSess]
   refine ⟨s', ⟨s', hs', by simp [hne]⟩, ?_⟩
   simp [hne, htop, hlive]
 
@@ -331,15 +347,21 @@ theorem c23_other_topics_untouched (st : St) (sid : Nat) (s : Sess)
     simp only [St.consume, hfind]
     split
     · exact hs'
-    · simp only [List.mem_map, updSess]
-      exact ⟨s', ⟨s', hs', by simp [hne]⟩, by simp [hne, htop]⟩
+    · split
+      · simp only [List.mem_map, updSess]
+        exact ⟨s', hs', by simp [hne]⟩
+      · simp only [List.mem_map, updSess]
+        exact ⟨s', ⟨s', hs', by simp [hne]⟩, by simp [hne, htop]⟩
   · intro heq
     simp only [St.consume, hfind]
     split
     · exact ⟨s', hs', heq, rfl, rfl, rfl⟩
     · rename_i x q hq
-      simp only [List.mem_map, updSess]
-      refine ⟨{ s' with evQ := q }, ⟨{ s' with evQ := q }, ⟨s', hs', by simp [heq]⟩, by simp [heq]⟩, heq, rfl, rfl, rfl⟩
+      split
+      · simp only [List.mem_map, updSess]
+        exact ⟨{ s' with evQ := q }, ⟨s', hs', by simp [heq]⟩, heq, rfl, rfl, rfl⟩
+      · simp only [List.mem_map, updSess]
+        refine ⟨{ s' with evQ := q }, ⟨{ s' with evQ := q }, ⟨s', hs', by simp [heq]⟩, by simp [heq]⟩, heq, rfl, rfl, rfl⟩
 
 /-! ### Trace level: nothing ever crosses topics
 
@@ -355,6 +377,7 @@ def inputs (topicOf : Nat → Option Nat) (τ : Nat) : List Act → List Nat
   | .liveStep _ :: as => inputs topicOf τ as
   | .remoteStep _ :: as => inputs topicOf τ as
   | .consume _ :: as => inputs topicOf τ as
+  | .syncRecv sid op :: as => if topicOf sid = some τ then op :: inputs topicOf τ as else inputs topicOf τ as
 
 def holds (s : Sess) : List Nat := s.remoteQ ++ s.liveQ ++ s.evQ ++ s.log.map (·.2)
 
@@ -423,6 +446,26 @@ private theorem mem_holds_stepRemote (s : Sess) (x : Nat) (h : x ∈ holds s.ste
           · exact Or.inl (Or.inl (Or.inl (Or.inl rfl)))
         · exact Or.inr h
   · exact h
+
+private theorem mem_holds_syncRecv (s : Sess) (op x : Nat) (h : x ∈ holds (s.syncRecv op)) :
+    x ∈ holds s ∨ x = op := by
+  simp only [Sess.syncRecv, holds, List.mem_append, List.mem_map] at h ⊢
+  rcases h with ((h | h) | h) | h
+  · exact Or.inl (Or.inl (Or.inl (Or.inl h)))
+  · exact Or.inl (Or.inl (Or.inl (Or.inr h)))
+  · split at h
+    · simp only [List.mem_append, List.mem_singleton] at h
+      rcases h with h | rfl
+      · exact Or.inl (Or.inl (Or.inr h))
+      · exact Or.inr rfl
+    · exact Or.inl (Or.inl (Or.inr h))
+  · split at h
+    · obtain ⟨e, he, rfl⟩ := h
+      simp only [List.mem_append, List.mem_singleton] at he
+      rcases he with he | rfl
+      · exact Or.inl (Or.inr ⟨e, he, rfl⟩)
+      · exact Or.inr rfl
+    · exact Or.inl (Or.inr h)
 
 private theorem find_mem {l : List Sess} {sid : Nat} {s : Sess}
     (h : l.find? (fun s => s.sid = sid) = some s) : s ∈ l ∧ s.sid = sid := by
@@ -493,6 +536,20 @@ theorem step_topicInv (topicOf : Nat → Option Nat) (known : Nat → List Nat) 
       exact ⟨hsid ▸ hc.1, hc.2.1, fun x hx => Or.inl (mem_holds_stepRemote s x hx)⟩
     · simp only [hsid, if_false]
       exact ⟨by first | trivial | rfl, by first | trivial | rfl, fun x hx => Or.inl hx⟩
+  | syncRecv sid op =>
+    apply topicInv_map topicOf known _ st.sess _ hmono _ h
+    intro s hs ht
+    by_cases hsid : s.sid = sid
+    · simp only [hsid, if_true]
+      have hc := conf_syncRecv s op
+      simp only [conf, Prod.mk.injEq] at hc
+      refine ⟨hsid ▸ hc.1, hc.2.1, ?_⟩
+      intro x hx
+      rcases mem_holds_syncRecv s op x hx with h1 | rfl
+      · exact Or.inl h1
+      · right; simp [inputs, ← hsid, ht]
+    · simp only [hsid, if_false]
+      exact ⟨by first | trivial | rfl, by first | trivial | rfl, fun x hx => Or.inl hx⟩
   | consume sid =>
     simp only [St.step, St.consume]
     split
@@ -510,6 +567,26 @@ theorem step_topicInv (topicOf : Nat → Option Nat) (known : Nat → List Nat) 
           rcases hz with rfl | hz
           · exact Or.inl (Or.inr (Or.inl rfl))
           · exact Or.inl (Or.inr (Or.inr hz))
+        split
+        · simp only [updSess]
+          apply topicInv_map topicOf known _ st.sess _ hmono _ h
+          intro s hs ht
+          by_cases hsid : s.sid = sid
+          · have htop : s.topic = src.topic := by
+              have : topicOf s.sid = topicOf src.sid := by rw [hsid, hsrcid]
+              rw [ht, htsrc] at this
+              exact Option.some.inj this
+            simp only [hsid, if_true]
+            refine ⟨by first | trivial | rfl | exact hsid, by first | trivial | rfl, ?_⟩
+            intro x hx
+            simp only [holds, List.mem_append] at hx ⊢
+            rcases hx with ((hx | hx) | hx) | hx
+            · exact Or.inl (Or.inl (Or.inl (Or.inl hx)))
+            · exact Or.inl (Or.inl (Or.inl (Or.inr hx)))
+            · right; rw [htop]; exact Or.inl (hyq x (Or.inr hx))
+            · exact Or.inl (Or.inr hx)
+          · simp only [hsid, if_false]
+            exact ⟨by first | trivial | rfl, by first | trivial | rfl, fun x hx => Or.inl hx⟩
         simp only [updSess, List.map_map]
         apply topicInv_map topicOf known _ st.sess _ hmono _ h
         intro s hs ht
@@ -600,10 +677,11 @@ Whatever the windows: a session writes `Live(x)` to its remote only if `x` was p
 very session or was sent by the remote of *another* session of the same topic. An operation
 that entered the node only through session `s` is never sent on `s`. -/
 
-/-- hashes sent by the remote of session `sid` -/
+/-- hashes sent by the remote of session `sid` (live or sync phase) -/
 def rin (sid : Nat) : List Act → List Nat
   | [] => []
   | .remote s op :: as => if s = sid then op :: rin sid as else rin sid as
+  | .syncRecv s op :: as => if s = sid then op :: rin sid as else rin sid as
   | _ :: as => rin sid as
 
 /-- hashes published on session `sid` -/
@@ -718,6 +796,23 @@ private theorem io_stepRemote (s : Sess) :
           · exact Or.inl (Or.inl (Or.inl h)), fun _ h => h⟩
   · exact ⟨fun _ h => h, fun _ h => h⟩
 
+private theorem io_syncRecv (s : Sess) (op : Nat) :
+    (∀ x ∈ inbound (s.syncRecv op), x ∈ inbound s ∨ x = op)
+    ∧ (∀ x ∈ outbound (s.syncRecv op), x ∈ outbound s) := by
+  cases hb : (s.dedup.insert op).2
+  · simp only [Sess.syncRecv, inbound, outbound, Sess.sent, Sess.received, hb, Bool.false_eq_true, if_false]
+    exact ⟨fun x h => Or.inl h, fun _ h => h⟩
+  · simp only [Sess.syncRecv, inbound, outbound, Sess.sent, Sess.received, hb, if_true,
+      sent_snoc_remote, recv_snoc_remote]
+    exact ⟨fun x h => by
+      simp only [List.mem_append, List.mem_singleton] at h ⊢
+      rcases h with (h | h | h) | h | h
+      · exact Or.inl (Or.inl (Or.inl h))
+      · exact Or.inl (Or.inl (Or.inr h))
+      · exact Or.inr h
+      · exact Or.inl (Or.inr h)
+      · exact Or.inr h, fun _ h => h⟩
+
 theorem step_soleInv (topicOf : Nat → Option Nat) (R Pn : Nat → List Nat) (st : St) (a : Act)
     (h : SoleInv topicOf R Pn st.sess) :
     SoleInv topicOf (fun i => R i ++ rin i [a]) (fun i => Pn i ++ pin i [a]) (st.step a).sess := by
@@ -779,6 +874,20 @@ theorem step_soleInv (topicOf : Nat → Option Nat) (R Pn : Nat → List Nat) (s
       exact ⟨hsid ▸ hc.1, hc.2.1, fun x hx => Or.inl ((io_stepRemote s).1 x hx), fun x hx => Or.inl ((io_stepRemote s).2 x hx)⟩
     · simp only [hsid, if_false]
       exact ⟨by first | trivial | rfl, by first | trivial | rfl, fun x hx => Or.inl hx, fun x hx => Or.inl hx⟩
+  | syncRecv sid op =>
+    apply soleInv_map topicOf R _ Pn _ st.sess _ hR hP _ h
+    intro s hs ht
+    by_cases hsid : s.sid = sid
+    · simp only [hsid, if_true]
+      have hc := conf_syncRecv s op
+      simp only [conf, Prod.mk.injEq] at hc
+      refine ⟨hsid ▸ hc.1, hc.2.1, ?_, fun x hx => Or.inl ((io_syncRecv s op).2 x hx)⟩
+      intro x hx
+      rcases (io_syncRecv s op).1 x hx with h1 | rfl
+      · exact Or.inl h1
+      · right; simp [rin, hsid]
+    · simp only [hsid, if_false]
+      exact ⟨by first | trivial | rfl, by first | trivial | rfl, fun x hx => Or.inl hx, fun x hx => Or.inl hx⟩
   | consume sid =>
     have keep : SoleInv topicOf (fun i => R i ++ rin i [Act.consume sid]) (fun i => Pn i ++ pin i [Act.consume sid]) st.sess :=
       fun s hs => ⟨(h s hs).1, fun x hx => hR _ _ ((h s hs).2.1 x hx),
@@ -800,6 +909,21 @@ theorem step_soleInv (topicOf : Nat → Option Nat) (R Pn : Nat → List Nat) (s
           rcases hz with rfl | hz
           · exact Or.inl (Or.inr (Or.inl rfl))
           · exact Or.inl (Or.inr (Or.inr hz))
+        split
+        · simp only [updSess]
+          apply soleInv_map topicOf R _ Pn _ st.sess _ hR hP _ h
+          intro s hs ht
+          by_cases hsid : s.sid = sid
+          · simp only [hsid, if_true]
+            refine ⟨by first | trivial | rfl | exact hsid, by first | trivial | rfl, ?_, fun x hx => Or.inl hx⟩
+            intro x hx
+            simp only [inbound, Sess.received, List.mem_append] at hx ⊢
+            rcases hx with (hx | hx) | hx
+            · exact Or.inl (Or.inl (Or.inl hx))
+            · right; exact Or.inl (hyq x (Or.inr hx))
+            · exact Or.inl (Or.inr hx)
+          · simp only [hsid, if_false]
+            exact ⟨by first | trivial | rfl, by first | trivial | rfl, fun x hx => Or.inl hx, fun x hx => Or.inl hx⟩
         simp only [updSess, List.map_map]
         apply soleInv_map topicOf R _ Pn _ st.sess _ hR hP _ h
         intro s hs ht
